@@ -138,7 +138,12 @@ def selection(s0: int, s1: int, s2: int, s3: int, parity: bool, o0: int, o1: int
     B.Pool = FakePool
     FakePool.order = [o0, o1, o2]          # the pool completes work in an arbitrary (symbolic) order
     try:
-        best, results = B.grid_search(GM, {"x": list(range(k))}, _score, processes=procs, mode=mode)
+        xs = list(range(k))
+        if hx.P.get('values') == 'iterator':        # a one-shot, length-less iterable of values is still a list of values
+            xs = iter(xs)
+        elif hx.P.get('values') == 'generator':
+            xs = (i for i in range(k))
+        best, results = B.grid_search(GM, {"x": xs}, _score, processes=procs, mode=mode)
     finally:
         B.Pool = saved
     if len(results) != k:
@@ -285,7 +290,8 @@ def obligations(tier):
         X("aggregate_linear", aggregate_linear, labels=("min", "max", "sum"), timeout=300, encoded=(B._score_model_for_search,)),
         X("aggregate_dispatch", aggregate_dispatch, labels=("mean", "variance", "invalid_mode"), timeout=300,
           encoded=(B._score_model_for_search,)),
-        X("selection", selection, parts=[{"k": k, "procs": p} for k in ((1, 2, 3, 4) if tier == "quick" else (1, 2, 3, 4, 5, 6)) for p in (1, 2) if not (p == 2 and k in (1, 3, 5))],
+        X("selection", selection, parts=[{"k": k, "procs": p} for k in ((1, 2, 3, 4) if tier == "quick" else (1, 2, 3, 4, 5, 6)) for p in (1, 2) if not (p == 2 and k == 1) and not (k == 5 and tier != "quick")] +
+          [{"k": 3, "procs": 1, "values": v} for v in ("iterator", "generator")] + [{"k": 5, "procs": 3}, {"k": 5, "procs": 2}],
           labels=("best_last", "best_first"), labels_for=lambda p: ("best_last", "best_first") if p["k"] > 1 else ("best_first",),
           timeout=600, encoded=enc, bounds={"combinations": "1..4 (quick) / 1..6 (thorough)", "aggregates": "all ints"}),
         X("reuse", reuse, parts=[{"procs2": 1}, {"procs2": 2}], labels=("second_search",), timeout=600, encoded=enc + (B.ParameterList.build,)),
